@@ -14,6 +14,7 @@ This private submodule is *not* intended for importation by downstream callers.
 '''
 
 # ....................{ IMPORTS                            }....................
+from beartype.claw._package._clawpkgmake import make_conf_hookable
 from beartype.claw._package.clawpkgtrie import (
     remove_beartype_pathhook_unless_packages_trie)
 from beartype.typing import (
@@ -92,6 +93,14 @@ def beartyping(
     packages_trie_conf_if_hooked_old: Optional[BeartypeConf] = None
 
     # Attempt to...
+    # Beartype configuration actually globalized by the beartype_all() function
+    # called below, which permutes the passed configuration into a variant
+    # suitable for import hooks *OR* raises an exception if the passed
+    # configuration is invalid. This is intentionally done before modifying any
+    # global state, ensuring that an invalid configuration preserves the prior
+    # global beartype configuration.
+    conf_hookable = make_conf_hookable(conf)
+
     try:
         # With a "beartype.claw"-specific thread-safe reentrant lock...
         with claw_lock:
@@ -117,7 +126,8 @@ def beartyping(
             # beartyping(...):" block has *NOT* itself called the beartype_all()
             # function with a conflicting beartype configuration. In this
             # case...
-            if claw_state.packages_trie_whitelist.conf_if_hooked == conf:
+            if claw_state.packages_trie_whitelist.conf_if_hooked == (
+                conf_hookable):
                 # Restore the prior global beartype configuration if any.
                 claw_state.packages_trie_whitelist.conf_if_hooked = (
                     packages_trie_conf_if_hooked_old)
